@@ -266,6 +266,14 @@ def run(ctx: Context) -> None:
         fn(subx, sites)
         for i in subx.instances:
             ctx.add("R7", i.key.split("/", 2)[2], i.ok, i.where, i.detail)
+    # every call of an accepted batch is routed: chunk loops cover every element (C19/R6)
+    from . import c19
+
+    sub19 = Context("C19", ctx.repo, ctx.tier, ctx.seed)
+    sub19._resolver = ctx._resolver
+    c19.r6(sub19)
+    for i in sub19.instances:
+        ctx.add("R7", i.key.split("/", 2)[2], i.ok, i.where, i.detail)
     # formatting / logging between two effects is taken as total by the path engine: rendering methods cannot raise (C04/R6)
     sub4 = Context("C04", ctx.repo, ctx.tier, ctx.seed)
     sub4._resolver = ctx._resolver
